@@ -361,6 +361,15 @@ Definition limit_hit (c : rcfg) (pages used : Z) : bool :=
 Definition with_used (x : rctx) (u : Z) : rctx := mkCtx u (x_ev x) (x_panic x).
 Definition with_panic (x : rctx) : rctx := mkCtx (x_used x) (x_ev x) true.
 
+(* :693-724: (sequence number of the first payload byte, nextSeq, queue?) *)
+Definition classify (next gseq : Z) (syn : bool) : Z * Z * bool :=
+  if next =? INVALID then
+    if syn then (sadd gseq 1, sadd gseq 1, false)
+    else (gseq, INVALID, true)
+  else
+    let seq := if syn then sadd gseq 1 else gseq in
+    (seq, next, (rdiff next seq >? 0)).
+
 Definition assemble_conn (v : variant) (cfg : rcfg) (c : rconn) (w : bool) (x : rctx)
     (gseq : Z) (syn fin rst : bool) (glen ts : Z) : rconn * bool * rctx :=
   let h0 := get_half c w in
@@ -371,13 +380,7 @@ Definition assemble_conn (v : variant) (cfg : rcfg) (c : rconn) (w : bool) (x : 
   if h_closed h then (put_half c w h, false, x)
   else
     (* :693-724 *)
-    let '(seq, next1, queue) :=
-      if h_next h =? INVALID then
-        if syn then (sadd gseq 1, sadd gseq 1, false)
-        else (gseq, INVALID, true)
-      else
-        let seq := if syn then sadd gseq 1 else gseq in
-        (seq, h_next h, (rdiff (h_next h) seq >? 0)) in
+    let '(seq, next1, queue) := classify (h_next h) gseq syn in
     let h := set_next h next1 in
     let lend_ := rst || fin in
     if queue then
